@@ -5,7 +5,7 @@
    composition loses persistent groups (known finding), which depends on reference-count driven registry edits that
    the model does not express. *)
 Require Import List Bool ZArith.
-From FV Require Import Lib.Sym Model.C01 Model.C03 Model.C03Graph Model.C04 Proofs.C04 Proofs.C04Graph.
+From FV Require Import Lib.Sym Model.C01 Model.C03 Model.C03Graph Model.C04 Proofs.C04 Proofs.C04Graph Proofs.C04GraphTrain Proofs.C04GraphTrainPers.
 Import ListNotations.
 
 (* positional binding is correct: a freshly expanded pipeline whose i-th stateful apply-path actor receives the i-th
@@ -50,6 +50,28 @@ Theorem C04_apply_segment_generation : forall e a t sl prev,
   value (geval (Some (combine (pers_gids e (gsource a t sl)) (persisted run))) (anodes ga)) (apa ga) = xa run.
 Proof. exact apply_segment_generation. Qed.
 Print Assumptions C04_apply_segment_generation.
+
+(* ... and on the TRAINING side: the training graph of the expression (Model/C03Graph.v build), evaluated by the graph
+   semantics of C01 with the accessor that holds a previous generation bound to the persistent groups by position, delivers at
+   its apply, train and label tails what the lifecycle model's training run continuing from that generation denotes (every
+   stateful apply-path actor continues from the state stored at its own position, train-only and label actors start afresh) *)
+Theorem C04_train_graph_generation : forall e a t sl prev,
+  let gs := build e (gsource a t sl) in
+  let ev := geval (Some (combine (pers_gids e (gsource a t sl)) prev)) (gnodes gs) in
+  let run := train_run prev (flatten e) (source a t sl) in
+  value ev (pa gs) = xa run /\ value ev (pt gs) = xt run /\ value ev (pl gs) = yl run.
+Proof. exact train_graph_generation. Qed.
+Print Assumptions C04_train_graph_generation.
+
+(* ... and the states it trains for the persistent groups are, in pipeline order, the list that run persists *)
+Theorem C04_train_graph_persisted : forall e a t sl prev,
+  let gs := build e (gsource a t sl) in
+  let L := combine (pers_gids e (gsource a t sl)) prev in
+  map (fun g => match lookup_gid g (trained (geval (Some L) (gnodes gs))) with Some s => s | None => TNone end)
+      (pers_gids e (gsource a t sl))
+  = persisted (train_run prev (flatten e) (source a t sl)).
+Proof. exact train_graph_persisted. Qed.
+Print Assumptions C04_train_graph_persisted.
 
 Example C04_witness :
   let a := OpSpec (Some (Actor 5 0 true)) TSame None in
